@@ -398,6 +398,20 @@ class Ctx:
 
     def _check(self, *extra):
         t0 = time.time()
+        if self.prune == "abstract":
+            # feasibility by the string-abstracted path condition only (unsat there => unsat): cheap pruning for tasks
+            # whose string queries are too slow to ask at every branch
+            sa = z3.Solver()
+            sa.set("timeout", 1500)
+            try:
+                for f in abstract_strings(list(self.pc) + list(extra)):
+                    sa.add(f)
+                r = sa.check()
+            except z3.Z3Exception:
+                r = z3.unknown
+            self.solver_s += time.time() - t0
+            self.nchecks += 1
+            return z3.unsat if r == z3.unsat else z3.sat
         r = self.solver.check(*extra)
         self.solver_s += time.time() - t0
         self.nchecks += 1
@@ -498,6 +512,32 @@ def run_cvc5(smt2_text, timeout_s=10, produce_model=False):
         os.unlink(p)
 
 
+def run_z3_cli(smt2_text, timeout_s=10):
+    """z3 as a child process with a hard wall-clock limit (the in-process string solver does not always honour its
+    timeout); returns (verdict, output)."""
+    import shutil
+    exe = shutil.which("z3-new") or shutil.which("z3")
+    if exe is None:
+        return "unknown", "no z3 executable"
+    with tempfile.NamedTemporaryFile("w", suffix=".smt2", delete=False) as f:
+        f.write(smt2_text)
+        p = f.name
+    try:
+        r = subprocess.run([exe, "-T:%d" % int(timeout_s), "-smt2", p], capture_output=True, text=True, timeout=timeout_s + 5)
+        out = r.stdout.strip()
+        first = out.splitlines()[0] if out else ""
+        if first in ("sat", "unsat"):
+            return first, out
+        return "unknown", out + r.stderr
+    except subprocess.TimeoutExpired:
+        return "unknown", "timeout"
+    finally:
+        os.unlink(p)
+
+
+Z3_OUT_OF_PROCESS = False  # set per task: string-heavy queries whose in-process check may run past its timeout
+
+
 class Verdict:
     def __init__(self, status, backend, secs, model=None, detail=""):
         self.status = status  # proved | refuted | unknown
@@ -578,7 +618,22 @@ def abstract_strings(formulas):
         except Exception:
             return z3.Const("atom!%d" % t.get_id(), t.sort())
 
-    return [walk(z3.simplify(f)) for f in formulas]
+    # every formula (and with it every sub-term whose id keys `atoms` / `cache`) stays alive until the whole list is
+    # translated: z3 reuses the ids of freed terms, a cache keyed by the id of a dead term would hand its translation
+    # to an unrelated term of a later formula
+    simplified = []
+    for f in formulas:
+        try:
+            simplified.append(z3.simplify(f))
+        except z3.Z3Exception:
+            simplified.append(f)
+    keep_alive = []
+
+    def walk_all():
+        return [walk(f) for f in simplified]
+    out = walk_all()
+    keep_alive.append(simplified)
+    return out
 
 
 def discharge(pc_terms, goal, timeout_ms=10000, use_cvc5=True, extra_hyps=()):
@@ -619,6 +674,20 @@ def discharge(pc_terms, goal, timeout_ms=10000, use_cvc5=True, extra_hyps=()):
         if v == "unsat":
             return Verdict("proved", "cvc5-cli", time.time() - t0)
         cvc5_said = (v, out)
+    if Z3_OUT_OF_PROCESS:
+        v, out = run_z3_cli(s.to_smt2(), timeout_s=max(3, timeout_ms // 1000))
+        dt = time.time() - t0
+        if v == "unsat":
+            return Verdict("proved", "z3-cli", dt)
+        if v == "sat" or (cvc5_said is not None and cvc5_said[0] == "sat"):
+            return Verdict("refuted", "z3-cli" if v == "sat" else "cvc5-cli", dt, model=None, detail=out if v == "sat" else cvc5_said[1])
+        if use_cvc5 and cvc5_said is None:
+            v, out = run_cvc5(s.to_smt2(), timeout_s=max(5, timeout_ms // 1000), produce_model=True)
+            if v == "unsat":
+                return Verdict("proved", "cvc5-cli", time.time() - t0)
+            if v == "sat":
+                return Verdict("refuted", "cvc5-cli", time.time() - t0, model=None, detail=out)
+        return Verdict("unknown", "z3-cli+cvc5", time.time() - t0, detail="timeout")
     r = s.check()
     dt = time.time() - t0
     if r == z3.unsat:
